@@ -4,6 +4,7 @@
 from __future__ import annotations
 
 import difflib
+import os
 import re
 import typing as T
 from configparser import ConfigParser, MissingSectionHeaderError, ParsingError
@@ -1111,8 +1112,11 @@ def run(options: argparse.Namespace) -> int:
             if from_stdin:
                 src_file = options.source_file_path or Path('STDIN')  # used for error messages and introspection
                 code = sys.stdin.read()
+                raw_code = code
             else:
-                code = src_file.read_text(encoding='utf-8')
+                with src_file.open(encoding='utf-8', newline='') as f:
+                    raw_code = f.read()
+                code = raw_code.replace('\r\n', '\n').replace('\r', '\n')
         except IOError as e:
             raise MesonException(f'Unable to read from {src_file}') from e
 
@@ -1127,7 +1131,11 @@ def run(options: argparse.Namespace) -> int:
             except IOError as e:
                 raise MesonException(f'Unable to write to {src_file}') from e
         elif options.check_only or options.check_diff:
-            if code != formatted:
+            # what --inplace would write: the same text with the configured line ending
+            written = formatted
+            if not from_stdin:
+                written = formatted.replace('\n', formatter.current_config.newline or os.linesep)
+            if raw_code != written:
                 err = 1
                 if options.check_diff:
                     diff = difflib.unified_diff(code.splitlines(), formatted.splitlines(),
